@@ -212,8 +212,9 @@ DefaultBitVectorState parseBitVector(std::string_view value)
 				defined = 0;
 
 			size_t dstIdx = num.size() - 1 - i;
-			ret.insertNonStraddling(sim::DefaultConfig::VALUE, dstIdx * bps, bps, value);
-			ret.insertNonStraddling(sim::DefaultConfig::DEFINED, dstIdx * bps, bps, defined);
+			// octal digits (3 bit) can straddle a 64 bit word border (digit 21 covers bits 63..65)
+			ret.insert(sim::DefaultConfig::VALUE, dstIdx * bps, bps, value);
+			ret.insert(sim::DefaultConfig::DEFINED, dstIdx * bps, bps, defined);
 		}
 	};
 
@@ -359,10 +360,11 @@ ExtendedBitVectorState parseExtendedBitVector(std::string_view value)
 				defined = 0;
 
 			size_t dstIdx = num.size() - 1 - i;
-			ret.insertNonStraddling(sim::ExtendedConfig::VALUE, dstIdx * bps, bps, value);
-			ret.insertNonStraddling(sim::ExtendedConfig::DEFINED, dstIdx * bps, bps, defined);
-			ret.insertNonStraddling(sim::ExtendedConfig::DONT_CARE, dstIdx * bps, bps, dont_care);
-			ret.insertNonStraddling(sim::ExtendedConfig::HIGH_IMPEDANCE, dstIdx * bps, bps, high_impedance);
+			// octal digits (3 bit) can straddle a 64 bit word border (digit 21 covers bits 63..65)
+			ret.insert(sim::ExtendedConfig::VALUE, dstIdx * bps, bps, value);
+			ret.insert(sim::ExtendedConfig::DEFINED, dstIdx * bps, bps, defined);
+			ret.insert(sim::ExtendedConfig::DONT_CARE, dstIdx * bps, bps, dont_care);
+			ret.insert(sim::ExtendedConfig::HIGH_IMPEDANCE, dstIdx * bps, bps, high_impedance);
 		}
 	};
 
